@@ -1,6 +1,7 @@
 import P2sh.Core.EncodeL
 import P2sh.Core.Checked
 import P2sh.Driver.Sexp
+import P2sh.Driver.CoreFnDrv
 /-! Driver for op `core <hex src> @@ <sexp>`: the functional compiler model of the core fragment,
 its machine and the reference evaluation, for byte-exact comparison with the real compiler and VM. -/
 namespace P2sh.Driver.CoreDrv
@@ -15,7 +16,7 @@ def run (line : String) : String :=
       -- the fragment with the parser's line numbers kept (C13); forgetting them gives exactly
       -- `ofStmts` (theorem `Core.eraseP_ofStmtsL`)
       match ofStmtsL 400 0 [] [] p.stmts with
-      | none => result "MODEL-SKIP" "any"       -- outside the core fragment
+      | none => CoreFnDrv.run p                 -- outside the core fragment: the layer with functions (or MODEL-SKIP)
       | some (ssL, nglobals, _) =>
         let ss := eraseP ssL
         let code := compileP 0 0 [] ss
